@@ -903,3 +903,304 @@ Proof.
   intros s o sched s' out fs h H Hne Hn. apply no_refire; auto.
   eapply firing_sets_flag; eauto.
 Qed.
+
+(* ====================================================================== *)
+(* the flag and the check at every quiescent point                         *)
+(* ====================================================================== *)
+
+(* at rest (queue drained), stable and open: [[NegotiationNeeded]] is set
+   exactly when checkNegotiationNeeded is true *)
+Definition at_rest_ok (s : nn) : Prop :=
+  p_closed (n_pc s) = false -> p_sig (n_pc s) = Stable ->
+  (n_flag s = true <-> check_negotiation_needed (n_pc s) = Ok true).
+
+Lemma op1_syncs : forall s,
+  (exists b, check_negotiation_needed (n_pc s) = Ok b) -> at_rest_ok (fst (op1 s)).
+Proof.
+  intros s [b Hb]. unfold at_rest_ok. rewrite op1_pc. intros Hc Hs.
+  unfold op1, nn_op. rewrite Hc, Hs, Hb. cbn.
+  destruct b; [destruct (n_flag s) eqn:F|]; cbn; rewrite ?Hb, ?F; split; auto; discriminate.
+Qed.
+
+(* every call that reaches onNegotiationNeeded (AddTrack, RemoveTrack,
+   AddTransceiver*, CreateDataChannel, transceivers created by a remote
+   description, setDescription into stable) re-synchronises flag and check *)
+Lemma nstep_trigger_syncs : forall s o sched,
+  Inv (n_pc s) -> fx_triggers (snd (step (n_pc s) o)) <> 0 ->
+  at_rest_ok (fst (fst (nstep s o sched))).
+Proof.
+  intros s o sched I Ht. unfold nstep.
+  destruct (step (n_pc s) o) as [[p' out] fx] eqn:E. cbn in Ht. rewrite drain_spec.
+  destruct (fx_triggers fx); [congruence|].
+  match goal with |- context [op1 ?x] =>
+    pose proof (op1_syncs x) as Hsync; destruct (op1 x) as [s2 f2] eqn:O end.
+  cbn in *. apply Hsync. cbn. apply check_never_panics. eapply step_inv; eauto.
+Qed.
+
+(* what checkNegotiationNeeded reads *)
+Definition tcv_view (t : tcv) :=
+  (t_mid t, t_dir t,
+   match t_dir t with
+   | Sendrecv | Sendonly => Some (option_map sender_track (t_sender t))
+   | _ => None
+   end).
+Definition check_view (p : pc) :=
+  (p_cur_local p, p_cur_remote p, p_dcs p, map tcv_view (p_tcvs p)).
+
+Lemma check_tcv_view : forall ld rd t t', tcv_view t = tcv_view t' -> check_tcv ld rd t = check_tcv ld rd t'.
+Proof.
+  intros ld rd t t' H. unfold tcv_view in H. inversion H as [[Hm Hd Hs]]. unfold check_tcv.
+  rewrite Hm, Hd. rewrite Hd in Hs.
+  destruct (get_by_mid (t_mid t') (d_secs ld)); auto.
+  destruct (t_dir t'); auto; inversion Hs as [Hs'];
+    destruct (t_sender t), (t_sender t'); cbn in Hs'; inversion Hs'; auto; now rewrite H1.
+Qed.
+
+Lemma check_tcvs_view : forall ld rd l l', map tcv_view l = map tcv_view l' -> check_tcvs ld rd l = check_tcvs ld rd l'.
+Proof.
+  induction l as [|t l IH]; intros [|t' l'] H; cbn in H; try discriminate; auto.
+  assert (Ht : tcv_view t = tcv_view t') by congruence.
+  assert (Hl : map tcv_view l = map tcv_view l') by congruence.
+  cbn [check_tcvs]. rewrite (check_tcv_view ld rd t t' Ht).
+  destruct (check_tcv ld rd t') as [[| |]| |]; auto.
+Qed.
+
+Lemma check_view_ext : forall p p', check_view p' = check_view p ->
+  check_negotiation_needed p' = check_negotiation_needed p.
+Proof.
+  intros p p' H. unfold check_view in H.
+  assert (H1 : p_cur_local p' = p_cur_local p) by congruence.
+  assert (H2 : p_cur_remote p' = p_cur_remote p) by congruence.
+  assert (H3 : p_dcs p' = p_dcs p) by congruence.
+  assert (H4 : map tcv_view (p_tcvs p') = map tcv_view (p_tcvs p)) by congruence.
+  unfold check_negotiation_needed. rewrite H1, H2, H3. destruct (p_cur_local p); auto.
+  destruct (_ && _); auto. now apply check_tcvs_view.
+Qed.
+
+Lemma map_update_same {A B} (f : A -> B) : forall l i t t',
+  nth_error l i = Some t -> f t' = f t -> map f (update_nth i (fun _ => t') l) = map f l.
+Proof.
+  induction l as [|x l IH]; intros [|i] t t' Hn Hf; cbn in *; try discriminate; auto.
+  - inversion Hn; subst. now rewrite Hf.
+  - f_equal. eapply IH; eauto.
+Qed.
+
+Lemma view_mark : forall t, tcv_view (mark_negotiated t) = tcv_view t.
+Proof. intro t. unfold tcv_view, mark_negotiated. cbn. destruct (t_sender t), (t_dir t); reflexivity. Qed.
+
+Lemma view_map_mark : forall l, map tcv_view (map mark_negotiated l) = map tcv_view l.
+Proof. intro l. rewrite map_map. apply map_ext. apply view_mark. Qed.
+
+Lemma view_mark_at : forall idx l, map tcv_view (mark_at idx l) = map tcv_view l.
+Proof.
+  intros idx l. unfold mark_at, indexed. generalize 0. induction l as [|t l IH]; intro n; cbn; auto.
+  rewrite IH. f_equal. destruct (existsb _ idx); auto using view_mark.
+Qed.
+
+Lemma assign_mids_id : forall l g, Forall (fun t => t_mid t <> "") l -> assign_mids g l = (g, l).
+Proof.
+  induction l as [|t l IH]; intros g H; cbn; auto. inversion H; subst.
+  destruct (String.eqb (t_mid t) "") eqn:E; [apply String.eqb_eq in E; congruence|].
+  now rewrite IH.
+Qed.
+
+(* the calls after which the check may read differently although
+   onNegotiationNeeded was not called: ReplaceTrack (the msid comparison of step
+   5.3.1 looks at the sender's present track) and a CreateOffer that gives out
+   mids *)
+Definition quiet_ok (p : pc) (o : op) : Prop :=
+  match o with
+  | OReplaceTrack _ _ _ => False
+  | OCreateOffer => Forall (fun t => t_mid t <> "") (p_tcvs p)
+  | _ => True
+  end.
+
+Lemma quiet_step_view : forall p o p' out fx,
+  step p o = (p', out, fx) -> fx_triggers fx = 0 -> quiet_ok p o ->
+  p_sig p' = Stable -> p_closed p' = false ->
+  check_view p' = check_view p /\ p_sig p = Stable /\ p_closed p = false.
+Proof.
+  intros p o p' out fx H Ht Q Hs Hc.
+  assert (Same : p' = p -> check_view p' = check_view p /\ p_sig p = Stable /\ p_closed p = false)
+    by (intros ->; auto).
+  destruct o; cbn [step quiet_ok] in *; try contradiction.
+  - unfold add_track in H. destruct (p_closed p); [inversion H; subst; auto|].
+    destruct (add_track_reuse (p_tcvs p) k i); inversion H; subst; discriminate.
+  - unfold add_tcv_kind in H. destruct (p_closed p); [inversion H; subst; auto|].
+    destruct d as [[| | |]|]; inversion H; subst; auto; discriminate.
+  - unfold add_tcv_track in H. destruct (p_closed p); [inversion H; subst; auto|].
+    destruct d as [[| | |]|]; inversion H; subst; auto; discriminate.
+  - unfold add_encoding in H. destruct (nth_error (p_tcvs p) ti) as [t|] eqn:N; [|inversion H; subst; auto].
+    destruct (t_sender t) as [sn|] eqn:Sn; [|inversion H; subst; auto].
+    destruct (String.eqb (k_rid (i_trk i)) ""); [inversion H; subst; auto|].
+    destruct (sn_stopped sn); [inversion H; subst; auto|].
+    destruct (sn_sent sn); [inversion H; subst; auto|].
+    destruct (sender_track sn) as [ref|] eqn:Tr; [|inversion H; subst; auto].
+    destruct (String.eqb (k_rid ref) ""); [inversion H; subst; auto|].
+    destruct (negb _); [inversion H; subst; auto|].
+    destruct (existsb _ (sn_encs sn)); [inversion H; subst; auto|].
+    inversion H; subst. cbn in *. split; auto. unfold check_view. cbn. f_equal.
+    eapply map_update_same; eauto. unfold tcv_view. cbn. rewrite Sn. cbn.
+    assert (E : sender_track {| sn_encs := sn_encs sn ++ [enc_of i]; sn_negotiated := sn_negotiated sn;
+                                sn_sent := false; sn_stopped := false |} = sender_track sn).
+    { unfold sender_track in *. cbn. destruct (sn_encs sn); [discriminate|reflexivity]. }
+    rewrite E. reflexivity.
+  - unfold remove_track in H. destruct (nth_error (p_tcvs p) ti) as [t|] eqn:N; [|inversion H; subst; auto].
+    destruct (t_sender t) as [sn|]; [|inversion H; subst; auto].
+    destruct (p_closed p); [inversion H; subst; auto|].
+    destruct (sending_dir false (t_dir t)) eqn:D; inversion H; subst; [discriminate|].
+    cbn in *. split; auto. unfold check_view. cbn. f_equal.
+    eapply map_update_same; eauto. unfold tcv_view. cbn. destruct (t_dir t); cbn in D; try discriminate; reflexivity.
+  - unfold create_data_channel in H. destruct (p_closed p); inversion H; subst; auto; discriminate.
+  - (* CreateOffer with every mid already given out *)
+    unfold create_offer in H. destruct (p_closed p) eqn:Ec; [inversion H; subst; auto|].
+    rewrite assign_mids_id in H by exact Q.
+    match type of H with (match ?b with _ => _ end) = _ => destruct b as [ms|e|] end.
+    + destruct (local_changed (p_tcvs p) (map render_msec ms)); inversion H; subst; cbn in *;
+        (split; [|auto]); unfold check_view; cbn; now rewrite view_map_mark.
+    + inversion H; subst; cbn in *. split; auto. unfold check_view; cbn. now rewrite view_mark_at.
+    + inversion H; subst; auto.
+  - unfold create_answer in H.
+    destruct (remote_for_matching p) as [r|]; [|inversion H; subst; auto].
+    destruct (p_closed p); [inversion H; subst; auto|].
+    destruct (negb (sig_eqb (p_sig p) HaveRemoteOffer) && negb (sig_eqb (p_sig p) HaveLocalPranswer)) eqn:Es;
+      [inversion H; subst; auto|].
+    assert (Hns : p_sig p <> Stable).
+    { intro X. rewrite X in Es. discriminate. }
+    destruct (matched_sections p (d_secs r) (p_tcvs p) false) as [[ms unused]|e|];
+      inversion H; subst; cbn in *; try contradiction; auto.
+  - pose proof (set_local_fx _ _ _ _ _ H) as F. destruct F as [->|[-> _]]; [|discriminate].
+    unfold set_local in H. destruct (p_closed p); [inversion H; subst; auto|].
+    destruct ty.
+    + destruct (p_last_offer p); [|inversion H; subst; auto].
+      destruct (sig_eqb (p_sig p) Stable); inversion H; subst; auto. discriminate.
+    + destruct (p_last_answer p); [|inversion H; subst; auto].
+      destruct (_ || _); [|inversion H; subst; auto].
+      destruct (match p_pend_remote p with Some _ => start_rtp_senders _ | None => _ end). inversion H.
+    + destruct (p_last_answer p); [|inversion H; subst; auto].
+      destruct (sig_eqb (p_sig p) HaveRemoteOffer); inversion H; subst; auto. discriminate.
+  - destruct (set_remote_fx _ _ _ _ _ _ _ H) as [[_ [F|[F _]]]|[-> _]]; [contradiction|auto|discriminate].
+  - unfold close_pc in H. destruct (p_closed p); inversion H; subst; auto. discriminate.
+Qed.
+
+Lemma nstep_quiet_preserves : forall s o sched,
+  at_rest_ok s -> fx_triggers (snd (step (n_pc s) o)) = 0 -> quiet_ok (n_pc s) o ->
+  at_rest_ok (fst (fst (nstep s o sched))).
+Proof.
+  intros s o sched A Ht Q. unfold nstep.
+  destruct (step (n_pc s) o) as [[p' out] fx] eqn:E. cbn in Ht. rewrite drain_spec, Ht. cbn.
+  assert (Hst : fx_to_stable fx = false).
+  { destruct (fx_to_stable fx) eqn:X; auto. rewrite (step_to_stable_triggers _ _ _ _ _ E X) in Ht. discriminate. }
+  rewrite Hst. unfold at_rest_ok. cbn. intros Hc Hs.
+  destruct (quiet_step_view _ _ _ _ _ E Ht Q Hs Hc) as [V [Hs0 Hc0]].
+  rewrite (check_view_ext _ _ V). apply A; auto.
+Qed.
+
+(* a history in which every call either reaches onNegotiationNeeded or is not
+   one of the two quiet calls *)
+Fixpoint calm (s : nn) (h : list (op * list bool)) : Prop :=
+  match h with
+  | [] => True
+  | (o, sched) :: r =>
+      (fx_triggers (snd (step (n_pc s) o)) <> 0 \/ quiet_ok (n_pc s) o)
+      /\ calm (fst (fst (nstep s o sched))) r
+  end.
+
+Lemma flag_iff_check_at_rest : forall h s,
+  Inv (n_pc s) -> at_rest_ok s -> calm s h -> at_rest_ok (fst (nrun s h)).
+Proof.
+  induction h as [|[o sched] r IH]; intros s I A C; cbn [nrun]; auto.
+  destruct C as [C1 C2].
+  pose proof (nstep_inv s o sched I) as I1.
+  assert (A1 : at_rest_ok (fst (fst (nstep s o sched)))).
+  { destruct (Nat.eq_dec (fx_triggers (snd (step (n_pc s) o))) 0) as [Z|NZ].
+    - destruct C1 as [C1|C1]; [congruence|]. now apply nstep_quiet_preserves.
+    - now apply nstep_trigger_syncs. }
+  destruct (nstep s o sched) as [[s1 out] fs]. cbn in *.
+  specialize (IH s1 I1 A1 C2). destruct (nrun s1 r). exact IH.
+Qed.
+
+(* from a fresh connection: the first call that reaches onNegotiationNeeded
+   establishes the equivalence (before it, the check is true -- there is no
+   local description -- while nothing has fired) *)
+Lemma flag_iff_check_from_first_trigger : forall always h1 o sched h2,
+  let s0 := fst (nrun (nn_init always) h1) in
+  fx_triggers (snd (step (n_pc s0) o)) <> 0 ->
+  calm (fst (fst (nstep s0 o sched))) h2 ->
+  at_rest_ok (fst (nrun (fst (fst (nstep s0 o sched))) h2)).
+Proof.
+  intros always h1 o sched h2 s0 Ht C.
+  assert (I0 : Inv (n_pc s0)) by apply reachable_inv.
+  apply flag_iff_check_at_rest; auto.
+  - now apply nstep_inv.
+  - now apply nstep_trigger_syncs.
+Qed.
+
+Lemma fresh_not_at_rest_ok : forall a, ~ at_rest_ok (nn_init a).
+Proof. intros a H. destruct (H eq_refl eq_refl) as [_ H2]. specialize (H2 eq_refl). discriminate. Qed.
+
+(* ====================================================================== *)
+(* step 5.3.3 (local description of type answer): the two readings         *)
+(* ====================================================================== *)
+
+(* JSEP 5.3.1: what a side that wants [want] may do when [offered] was offered *)
+Definition intersect_dir (want offered : dir) : dir :=
+  let send := match want with Sendrecv | Sendonly => true | _ => false end
+              && match offered with Sendrecv | Recvonly => true | _ => false end in
+  let recv := match want with Sendrecv | Recvonly => true | _ => false end
+              && match offered with Sendrecv | Sendonly => true | _ => false end in
+  match send, recv with
+  | true, true => Sendrecv | true, false => Sendonly | false, true => Recvonly | false, false => Inactive
+  end.
+(* an answer direction that is a legal response to the offered direction *)
+Definition legal_response (a o : dir) : Prop := intersect_dir a o = a.
+(* checkNegotiationNeeded compares the answer's direction with the transceiver's *)
+Definition plain_clause (a d : dir) : bool := negb (dir_eqb a d).
+(* W3C: "... does not match transceiver.[[Direction]] intersected with the offered direction" *)
+Definition w3c_clause (a o d : dir) : bool := negb (dir_eqb a (intersect_dir d o)).
+
+Lemma answer_readings_differ_iff : forall a o d,
+  plain_clause a d <> w3c_clause a o d <->
+  (a = d /\ ~ legal_response a o) \/ (a <> d /\ a = intersect_dir d o).
+Proof.
+  intros a o d. unfold plain_clause, w3c_clause, legal_response.
+  destruct a, o, d; cbn; split; intro H;
+    try (exfalso; apply H; reflexivity);
+    try (destruct H as [[H1 H2]|[H1 H2]]; try discriminate; try (exfalso; apply H2; reflexivity);
+         try (exfalso; apply H1; reflexivity); fail);
+    try (left; split; [reflexivity|discriminate]);
+    try (right; split; [discriminate|reflexivity]);
+    try discriminate.
+Qed.
+
+Lemma answer_readings_agree_within_offer : forall a o d,
+  intersect_dir d o = d -> plain_clause a d = w3c_clause a o d.
+Proof. intros a o d H. unfold plain_clause, w3c_clause. now rewrite H. Qed.
+
+Lemma answer_readings_agree_legal_unchanged : forall a o,
+  legal_response a o -> plain_clause a a = false /\ w3c_clause a o a = false.
+Proof.
+  intros a o H. unfold plain_clause, w3c_clause. unfold legal_response in H. rewrite H.
+  destruct a; auto.
+Qed.
+
+(* SetRemoteDescription's direction switch leaves the transceiver within the
+   offered direction, except for the two cases recorded under C08 (a=sendonly
+   offered to a transceiver that is sendrecv or sendonly) *)
+Lemma srd_direction_within_offer : forall o d0,
+  (o = Inactive -> d0 = Inactive) ->   (* the loop stops the transceiver first *)
+  intersect_dir (srd_direction o d0) o = srd_direction o d0
+  \/ (o = Sendonly /\ (d0 = Sendrecv \/ d0 = Sendonly)).
+Proof.
+  intros o d0 H. destruct o, d0; cbn; auto; specialize (H eq_refl); discriminate.
+Qed.
+
+(* the model's clause is the plain one *)
+Lemma check_tcv_answer_clause : forall ld rd t m a,
+  d_type ld = TAnswer -> get_by_mid (t_mid t) (d_secs ld) = Some m -> sc_dir m = Some a ->
+  (t_dir t = Recvonly \/ t_dir t = Inactive) ->
+  check_tcv ld rd t = Ok (if plain_clause a (t_dir t) then Needed else NotNeeded).
+Proof.
+  intros ld rd t m a Ht Hm Ha Hd. unfold check_tcv, plain_clause. rewrite Hm, Ht, Ha. cbn.
+  destruct Hd as [-> | ->]; destruct a; reflexivity.
+Qed.
